@@ -568,7 +568,10 @@ func (tree *Rtree) nearestNeighbors(k int, p geom.Point, n *node,
 		}
 	} else {
 		branches, branchDists := sortEntries(p, n.entries)
-		branches = pruneEntries(p, branches, branchDists)
+		if k == 1 {
+			// The MINMAXDIST bound only guarantees one object per branch.
+			branches = pruneEntries(p, branches, branchDists)
+		}
 		for _, e := range branches {
 			nearest, dists = tree.nearestNeighbors(k, p, e.child, dists, nearest)
 		}
